@@ -513,7 +513,10 @@ MANIFEST_TEXT = {
              "(Cpp.scan: entry filter order, buckets keyed by (basename, ext) with a running minimum width, numbers only, "
              "string -> constructor -> forced components, single files built by the constructor and then forced) and is proved to "
              "report the same sequences and single files as the Go scan for every directory of the property's domain (C19_scan, "
-             "by simulation of the two first passes; per bucket C19_scan_bucket, per frame-less file C19_scan_frameless); "
+             "by simulation of the two first passes; per bucket C19_scan_bucket, per frame-less file C19_scan_frameless); the port's "
+             "pattern lookup has its own model too (Cpp.find: template scan with the DEFAULT options and pad style, hand-written "
+             "frame-number test, first result switched to the caller's style) and is proved equal to the Go lookup (C19_find, "
+             "C19_find_rejects); "
              "everywhere else one shared definition models both and the "
              "three-way run (C++ driver built from /repo/cpp, Go harness, Lean driver) checks that both implementations follow it "
              "and agree with each other field by field.",
